@@ -16,7 +16,7 @@ RULE = ('every word alternative of the live TrueRegex/FalseRegex (\\s+ expanded 
         'white-space-only; all ordered pairs of opposite-polarity expressions x 3 joiners. non-trivial = the model returned an '
         'entity or the case expects none and the query is non-empty; distinct = distinct query string.')
 EXHAUSTIVE = {'quick': True, 'thorough': True}
-JOB_TIMEOUT = 600
+JOB_TIMEOUT = 5400
 
 WRAPS = ['{}', '{}.', '{}!', '  {}  ', '"{}"', "'{}'", '({})', 'well {} then', 'hmm , {} !', '{} please', 'I think {}', '{}, thanks',
          'answer: {}', '{}?']
